@@ -211,7 +211,7 @@ CHECKS = {
         "title": "Replicas computing the same blocks reach the same state hash",
         "level": "exploration",
         "technique": "property-based differential testing (rapid): generated ABCI histories executed on two independently constructed applications (thorough: plus a replica in a second OS process), comparing app hashes, transaction results and events at every height",
-        "tests": [T("TestC11", 25, 120, qshards=4, timeout=1500)],
+        "tests": [T("TestC11", 25, 120, qshards=4, timeout=900)],
         "rule": "cases = generated genesis (minter configuration, sub-distributor configuration, 1-4 vesting types, 0-3 genesis pools) + 5-25 blocks with dt in {1s,5s,11s,1min,1d,30d}, each carrying 0-4 signed SIGN_MODE_DIRECT transactions built against the live state: create pool, pool send, withdraw, direct vesting-account creation, split / move / move-by-denoms signed by previously created vesting accounts, MsgDelegate from vesting accounts, bank sends into distributor sources, cfesignature messages (unroutable on this tree), governance proposals carrying minter / distributor / vesting parameter updates followed by a validator-delegator yes vote and execution after the 10 s voting period, user-signed parameter updates, garbage bytes and wrong-sequence transactions. "
                 "Replica B is a separately constructed app fed the identical genesis bytes and transaction bytes. Compared per height: Commit app hash, every ResponseDeliverTx {code, codespace, data, gas used/wanted, events}, BeginBlock and EndBlock events, validator updates. Log strings are not compared (ABCI declares them non-deterministic), differences are counted. Non-trivial = at least one accepted vesting transaction and one rejected transaction. Distinct = SHA-256 of (genesis, history).",
         "min_nontrivial_fraction": 0.5,
